@@ -253,7 +253,7 @@ func c36Runs(r *vlib.Run) {
 	defer verifhook.Set(nil)
 	pars := []int{1, 2, 4, 16}
 	repeats := r.N(3, 6)
-	n := r.N(48, 600)
+	n := r.N(48, 480)
 	var runs atomic.Int64
 	r.Par(n, func(i int) {
 		id := fmt.Sprintf("run/%d", i)
@@ -296,7 +296,7 @@ func c36Runs(r *vlib.Run) {
 					what = "fatal/panic outcome differs"
 				case strings.Join(snapKeys(o.Snaps), "\n") != strings.Join(snapKeys(base.Snaps), "\n"):
 					what = classifySeqDiff(base.Snaps, o.Snaps) + involving(base.Snaps, o.Snaps)
-					if hasMessage(base.Snaps, "detected cyclic import") || hasMessage(o.Snaps, "detected cyclic import") {
+					if !strings.HasPrefix(what, "same diagnostics") && (hasMessage(base.Snaps, "detected cyclic import") || hasMessage(o.Snaps, "detected cyclic import")) {
 						// input class: which member of an import cycle reports the cycle (and
 						// what follows from it) is what varies; name the class, not the victim
 						what = "[workspace has an import cycle] " + classifySeqDiff(base.Snaps, o.Snaps)
@@ -666,7 +666,7 @@ func c36Canon(r *vlib.Run) {
 			runCanonCase(r, c)
 		}
 	}
-	n := r.N(400, 6000)
+	n := r.N(400, 4000)
 	r.Par(n, func(i int) {
 		id := fmt.Sprintf("canon/%d", i)
 		if !r.Want(id) {
@@ -693,7 +693,8 @@ func TestC36(t *testing.T) {
 	r.Extra("rule", "(a) generated workspaces with 2–5 rule-breaking mutations spread over 3–7 files; each is compiled once at parallelism 1 (baseline) and then by fresh executors + fresh sessions at parallelism 1/2/4/16 × repeats under pseudo-random Gosched/sleep at the incr.* hook sites; non-trivial = baseline has ≥ 2 diagnostics. "+
 		"(b) diagnostic lists of 2–6 entries (all permutations) and 7–8 entries (300 sampled permutations) built through the public report API from small pools so that entries tie on Canonicalize's sort keys (path, stage, start, end, tag, message) while differing in level/notes/help/debug/snippet text/secondary snippet/in-file, plus exact duplicates and entries without a primary span; non-trivial = at least two entries tie on all sort keys. distinct = distinct workspace content / distinct spec list")
 	r.Extra("assumptions", []string{
-		"two diagnostics are 'the same' iff all public accessors and the Report.ToProto export (annotations, edits, notes, help, debug) are equal; rendered text is compared in addition for compiler runs",
+		"two diagnostics are 'the same' iff all public accessors and the Report.ToProto export (annotations, edits, notes, help, debug) are equal; rendered text (without the debug footer) is compared in addition for compiler runs",
+		"raw addresses and the goroutine stack dump inside internal-compiler-error diagnostics are masked before comparing",
 		"schedules are sampled (perturbation + repetition + the race detector), not enumerated",
 	})
 	c36Canon(r)
